@@ -64,6 +64,9 @@ VARS = [
       redo=("NewDefinedName", ["name@","*scope","value@"]), undo=("DeleteDefinedName", ["name@","*scope"])),
  dict(v="DeleteDefinedName", f=[("name","String"),("scope","Option<u32>"),("old_value","String")],
       redo=("DeleteDefinedName", ["name@","*scope"]), undo=("NewDefinedName", ["name@","*scope","old_value@"])),
+ dict(v="UpdateDefinedName", f=[("name","String"),("scope","Option<u32>"),("old_formula","String"),("new_name","String"),("new_scope","Option<u32>"),("new_formula","String")],
+      redo=("UpdateDefinedName", ["name@","*scope","new_name@","*new_scope","new_formula@"]),
+      undo=("UpdateDefinedName", ["new_name@","*new_scope","name@","*scope","old_formula@"])),
 ]
 
 CALLS = {
@@ -90,6 +93,8 @@ CALLS = {
  "DeleteRowStyle": ("delete_row_style", "base/src/model.rs", ["u32","i32"], ["sheet","row"]),
  "NewDefinedName": ("new_defined_name", "base/src/model.rs", ["Seq<char>","Option<u32>","Seq<char>"], ["name@","scope","formula@"]),
  "DeleteDefinedName": ("delete_defined_name", "base/src/model.rs", ["Seq<char>","Option<u32>"], ["name@","scope"]),
+ "UpdateDefinedName": ("update_defined_name", "base/src/model.rs", ["Seq<char>","Option<u32>","Seq<char>","Option<u32>","Seq<char>"], ["name@","scope","new_name@","new_scope","new_formula@"]),
+ "MoveSheet": ("move_sheet", "base/src/new_empty.rs", ["u32","u32"], ["sheet_index","new_index"]),
  "DeleteSheet": ("delete_sheet", "base/src/new_empty.rs", ["u32"], ["sheet_index"]),
  "InsertSheet": ("insert_sheet", "base/src/new_empty.rs", ["Seq<char>","u32","Option<u32>"], ["sheet_name@","sheet_index","sheet_id"]),
 }
